@@ -1,411 +1,137 @@
-(* C17 -- process-level memo tables (functools.lru_cache) in front of a function, the Python key
-   equivalence under which they are looked up, the date filter before and after the repair, the
-   process model (implicit environment, lexer, parser, date-string parser tables) and the effect
-   table of the array filters over a heap of list objects.  Executable definitions only. *)
-From Coq Require Import String Ascii.
-From LiquidVerif Require Import Prelude.
+(* Memo.v — the process-wide memo tables behind Environment.from_string / Template():
+     get_lexer                 lru_cache(maxsize=128) keyed on the six delimiter strings          (liquid/lex.py)
+     get_parser                lru_cache(maxsize=128) keyed on the environment object             (liquid/parser.py)
+                               (Environment.__hash__ hashes 7 fields and only selects the bucket; equality is
+                                object identity, so the key is the identity of the environment)
+     get_implicit_environment  lru_cache(maxsize=10) keyed on all keyword arguments of Template() (liquid/environment.py)
+   and histories of environment creations, registrations and parses.  Executable definitions only. *)
+From LiquidVerif Require Import Prelude Lex.
 
-Definition mlit (x : string) : str := map N_of_ascii (list_ascii_of_string x).
-
-(* ------------------------------------------------------------------------------------------ *)
-(* 1. A memo table with capacity and least-recently-used eviction (functools.lru_cache).        *)
-(*    Most recently used entry first.  The stored key is the key of the FIRST call (a hit does  *)
-(*    not replace it), a raising call stores nothing, capacity 0 stores nothing.                *)
-(* ------------------------------------------------------------------------------------------ *)
-Section Memo.
+(* ---------------------------------------------------------------- functools.lru_cache *)
+Section Cache.
   Context {K V : Type}.
-  Variable keq : K -> K -> bool.     (* query key against stored key: Python hash-and-== *)
-  Variable f : K -> res V.           (* the decorated function *)
-  Variable cap : nat.                (* maxsize *)
+  Variable keqb : K -> K -> bool.
 
-  Definition tbl := list (K * V).
+  Definition cache := list (K * V).          (* most recently used first *)
 
-  Fixpoint take_hit (k : K) (t : tbl) : option ((K * V) * tbl) :=
-    match t with
+  Fixpoint clookup (k : K) (c : cache) : option V :=
+    match c with
     | [] => None
-    | (k0, v) :: t' =>
-        if keq k k0 then Some ((k0, v), t')
-        else match take_hit k t' with
-             | Some (e, r) => Some (e, (k0, v) :: r)
-             | None => None
-             end
+    | (k', v) :: r => if keqb k k' then Some v else clookup k r
     end.
 
-  Definition memo_call (t : tbl) (k : K) : res V * tbl :=
-    match take_hit k t with
-    | Some ((k0, v), r) => (Ok v, (k0, v) :: r)
-    | None =>
-        match f k with
-        | Ok v => (Ok v, firstn cap ((k, v) :: t))
-        | Err e => (Err e, t)
-        | OutOfFuel => (OutOfFuel, t)
-        end
-    end.
-
-  Fixpoint memo_state (t : tbl) (hist : list K) : tbl :=
-    match hist with
-    | [] => t
-    | k :: r => memo_state (snd (memo_call t k)) r
-    end.
-
-  Fixpoint memo_run (t : tbl) (ks : list K) : list (res V) :=
-    match ks with
+  Fixpoint cremove (k : K) (c : cache) : cache :=
+    match c with
     | [] => []
-    | k :: r => let '(o, t') := memo_call t k in o :: memo_run t' r
+    | (k', v) :: r => if keqb k k' then cremove k r else (k', v) :: cremove k r
     end.
-End Memo.
 
-(* ------------------------------------------------------------------------------------------ *)
-(* 2. Python values that reach a memo key, and the two equalities on them.                      *)
-(* ------------------------------------------------------------------------------------------ *)
-Inductive pv :=
-| PNone
-| PBool (b : bool)
-| PInt (z : Z)
-| PFloat (twice : Z)                  (* the float twice/2: integral and half values (exact in binary) *)
-| PDec (z : Z)                        (* decimal.Decimal(z) *)
-| PStr (s : str)
-| PMarkup (s : str)                   (* markupsafe.Markup, a str subclass *)
-| PDt (utc_minutes : Z) (off_minutes : Z).   (* aware datetime: instant and zone offset *)
+  (* a hit returns the stored value and makes the entry the most recent one; a miss calls f, stores the result and
+     drops the least recently used entries beyond maxsize *)
+  Definition cached (maxsize : nat) (f : K -> V) (c : cache) (k : K) : V * cache :=
+    match clookup k c with
+    | Some v => (v, (k, v) :: cremove k c)
+    | None => let v := f k in (v, firstn maxsize ((k, v) :: c))
+    end.
+End Cache.
 
-Definition num_twice (p : pv) : option Z :=
-  match p with
-  | PBool b => Some (if b then 2 else 0)%Z
-  | PInt z => Some (2 * z)%Z
-  | PFloat t => Some t
-  | PDec z => Some (2 * z)%Z
-  | _ => None
-  end.
+(* ---------------------------------------------------------------- configurations and environments *)
+Definition delims_eqb (a b : delims) : bool :=
+  str_eqb (d_ts a) (d_ts b) && str_eqb (d_te a) (d_te b) && str_eqb (d_ss a) (d_ss b)
+  && str_eqb (d_se a) (d_se b) && str_eqb (d_cs a) (d_cs b) && str_eqb (d_ce a) (d_ce b).
 
-Definition text_of (p : pv) : option str :=
-  match p with PStr s | PMarkup s => Some s | _ => None end.
+(* the keyword arguments of Environment() / Template(): delimiters, template_comments, and everything else
+   (tolerance, undefined, strict_filters, autoescape, loader, globals, extra) as one opaque value *)
+Record cfg := { cf_delims : delims; cf_comments : bool; cf_rest : N }.
 
-(* Python == restricted to pairs with equal hashes (what a dict / lru_cache lookup uses) *)
-Definition py_eq (a b : pv) : bool :=
-  match num_twice a, num_twice b with
-  | Some x, Some y => Z.eqb x y
-  | None, None =>
-      match a, b with
-      | PNone, PNone => true
-      | PDt i _, PDt j _ => Z.eqb i j
-      | _, _ => match text_of a, text_of b with
-                | Some s, Some t => str_eqb s t
-                | _, _ => false
-                end
-      end
-  | _, _ => false
-  end.
+Definition cfg_eqb (a b : cfg) : bool :=
+  delims_eqb (cf_delims a) (cf_delims b) && Bool.eqb (cf_comments a) (cf_comments b) && N.eqb (cf_rest a) (cf_rest b).
 
-(* same type and same value (what lru_cache(typed=True) would still not distinguish: time zones) *)
-Definition py_same (a b : pv) : bool :=
-  match a, b with
-  | PNone, PNone => true
-  | PBool x, PBool y => Bool.eqb x y
-  | PInt x, PInt y | PFloat x, PFloat y | PDec x, PDec y => Z.eqb x y
-  | PStr s, PStr t | PMarkup s, PMarkup t => str_eqb s t
-  | PDt i o, PDt j p => Z.eqb i j && Z.eqb o p
-  | _, _ => false
-  end.
+(* Environment.__init__: without template_comments the comment delimiters are blanked *)
+Definition eff_delims (c : cfg) : delims :=
+  if cf_comments c then cf_delims c
+  else {| d_ts := d_ts (cf_delims c); d_te := d_te (cf_delims c); d_ss := d_ss (cf_delims c);
+          d_se := d_se (cf_delims c); d_cs := []; d_ce := [] |}.
 
-Definition pvs_eq (a b : list pv) : bool := list_eqb py_eq a b.
-Definition pvs_same (a b : list pv) : bool := list_eqb py_same a b.
+(* what an environment object holds: its configuration and its own tag and filter registers *)
+Record envdata := { ed_cfg : cfg; ed_tags : list str; ed_filters : list str }.
 
-(* ------------------------------------------------------------------------------------------ *)
-(* 3. The date filter.  Its uncached behaviour is a table measured in a FRESH process.          *)
-(* ------------------------------------------------------------------------------------------ *)
-Definition dkey := (pv * pv * N)%type.          (* left value, format, environment identity *)
+Definition lexer := str -> res (list token).
+Definition compile_lexer (d : delims) : lexer := tokenize d.       (* compile_liquid_rules + partial(_tokenize_template) *)
 
-Definition dkey_py_eq (a b : dkey) : bool :=
-  let '(d1, f1, e1) := a in let '(d2, f2, e2) := b in py_eq d1 d2 && py_eq f1 f2 && N.eqb e1 e2.
-Definition dkey_same (a b : dkey) : bool :=
-  let '(d1, f1, e1) := a in let '(d2, f2, e2) := b in py_same d1 d2 && py_same f1 f2 && N.eqb e1 e2.
-
-Definition dtab := list (dkey * res str).
-Fixpoint dlook (t : dtab) (k : dkey) : res str :=
-  match t with
-  | [] => OutOfFuel            (* not measured: never a normal-looking value *)
-  | (k0, v) :: r => if dkey_same k k0 then v else dlook r k
-  end.
-
-Definition date_cap : nat := 10.
-
-(* before the repair: lru_cache(maxsize=10) around the whole filter *)
-Definition date_old_call (ft : dtab) := memo_call dkey_py_eq (dlook ft) date_cap.
-Definition date_old_run (ft : dtab) (ks : list dkey) : list (res str) :=
-  memo_run dkey_py_eq (dlook ft) date_cap [] ks.
-
-(* after the repair: only the parsing of a date string is memoised, keyed by its text and the day *)
-Definition is_digit (c : N) : bool := (48 <=? c)%N && (c <=? 57)%N.
-Definition all_digits (s : str) : bool := match s with [] => false | _ => forallb is_digit s end.
-Definition is_special (s : str) : bool :=
-  str_eqb s (mlit "now") || str_eqb s (mlit "today") || all_digits s.
-
-Definition pkey := (str * Z)%type.               (* text, day number *)
-Definition pkey_eqb (a b : pkey) : bool := str_eqb (fst a) (fst b) && Z.eqb (snd a) (snd b).
-(* the parsed datetime is determined by the text and the day: it is represented by the text *)
-Definition parse_abs (k : pkey) : res str := Ok (fst k).
-Definition with_text (p : pv) (s : str) : pv :=
-  match p with PStr _ => PStr s | PMarkup _ => PMarkup s | _ => p end.
-
-Definition ptbl := @tbl pkey str.
-
-Definition date_new_call (ft : dtab) (t : ptbl) (day : Z) (k : dkey) : res str * ptbl :=
-  let '(dat, fmt, env) := k in
-  match text_of dat with
-  | Some s =>
-      if is_special s then (dlook ft k, t)
-      else
-        let '(p, t') := memo_call pkey_eqb parse_abs date_cap t (s, day) in
-        match p with
-        | Ok s' => (dlook ft (with_text dat s', fmt, env), t')
-        | Err e => (Err e, t')
-        | OutOfFuel => (OutOfFuel, t')
-        end
-  | None => (dlook ft k, t)
-  end.
-
-Fixpoint date_new_state (ft : dtab) (t : ptbl) (hist : list (Z * dkey)) : ptbl :=
-  match hist with
-  | [] => t
-  | (day, k) :: r => date_new_state ft (snd (date_new_call ft t day k)) r
-  end.
-
-Fixpoint date_new_run (ft : dtab) (t : ptbl) (ks : list (Z * dkey)) : list (res str) :=
-  match ks with
-  | [] => []
-  | (day, k) :: r => let '(o, t') := date_new_call ft t day k in o :: date_new_run ft t' r
-  end.
-
-(* ------------------------------------------------------------------------------------------ *)
-(* 4. The process: a render job consults the implicit-environment table (liquid.Template), the  *)
-(*    lexer table (six delimiter strings), the parser table (environment identity) and, through *)
-(*    the date filter, the date-string table.  Its output is the FRESH-process output of the    *)
-(*    job in which every memoised argument is replaced by what the table handed back.           *)
-(* ------------------------------------------------------------------------------------------ *)
-Record job := {
-  j_implicit : bool;                 (* built through liquid.Template(...) rather than Environment(...) *)
-  j_env : N;                         (* identity of the explicit Environment (ignored when implicit) *)
-  j_delims : list pv;                (* the six delimiter strings *)
-  j_flags : list pv;                 (* extra, tolerance, undefined, strict_filters, autoescape, template_comments *)
-  j_date : option (pv * pv);         (* left value and format of the date filter call, if any *)
-  j_day : Z;
-  j_rest : N                         (* the template text and the other data, exactly *)
+Record pstate := {
+  ps_envs : list envdata;                       (* the heap of environment objects; identity = position *)
+  ps_lexers : @cache delims lexer;              (* get_lexer *)
+  ps_parsers : @cache nat nat;                  (* get_parser: environment identity -> Parser(env) (holds that identity) *)
+  ps_implicit : @cache cfg nat                  (* get_implicit_environment: kwargs -> environment identity *)
 }.
 
-Definition opt_same (a b : option (pv * pv)) : bool :=
-  match a, b with
-  | None, None => true
-  | Some (x, y), Some (u, v) => py_same x u && py_same y v
-  | _, _ => false
-  end.
+Definition ps0 : pstate := {| ps_envs := []; ps_lexers := []; ps_parsers := []; ps_implicit := [] |}.
 
-Definition job_same (a b : job) : bool :=
-  Bool.eqb (j_implicit a) (j_implicit b) && N.eqb (j_env a) (j_env b) &&
-  pvs_same (j_delims a) (j_delims b) && pvs_same (j_flags a) (j_flags b) &&
-  opt_same (j_date a) (j_date b) && Z.eqb (j_day a) (j_day b) && N.eqb (j_rest a) (j_rest b).
+Inductive op :=
+| NewEnv (c : cfg) (tags filters : list str)     (* Environment(kwargs c), builtin registration *)
+| AddTag (e : nat) (t : str)                     (* env.add_tag *)
+| AddFilter (e : nat) (f : str)                  (* env.add_filter *)
+| Parse (e : nat) (src : str)                    (* env.from_string(src) *)
+| Implicit (c : cfg) (tags filters : list str) (src : str).   (* Template(src, kwargs c) *)
 
-Definition jtab := list (job * res str).
-Fixpoint jlook (t : jtab) (j : job) : res str :=
-  match t with
-  | [] => OutOfFuel
-  | (j0, v) :: r => if job_same j j0 then v else jlook r j
-  end.
+(* what determines the outcome of a parse: the token stream and the environment the Parser works for *)
+Definition presult : Type := res (list token) * option envdata.
 
-Definition cfg := (list pv * list pv)%type.      (* delimiters, flags *)
-Definition cfg_py_eq (a b : cfg) : bool := pvs_eq (fst a) (fst b) && pvs_eq (snd a) (snd b).
+Definition fresh_parse (ed : envdata) (src : str) : presult :=
+  (compile_lexer (eff_delims (ed_cfg ed)) src, Some ed).
 
-Record proc := {
-  p_impl : @tbl cfg cfg;             (* get_implicit_environment, maxsize 10: the environment built for the stored key *)
-  p_lex : @tbl (list pv) (list pv);  (* get_lexer, maxsize 128: the tokenizer compiled for the stored delimiters *)
-  p_parser : @tbl N N;               (* get_parser, maxsize 128: the parser bound to the stored environment *)
-  p_parse : ptbl                     (* _parse_date_string, maxsize 10 *)
-}.
-
-Definition proc0 : proc := {| p_impl := []; p_lex := []; p_parser := []; p_parse := [] |}.
-
-Definition impl_cap : nat := 10.
-Definition lex_cap : nat := 128.
-
-Definition ok_or {A} (r : res A) (d : A) : A := match r with Ok a => a | _ => d end.
-
-Definition step (ft : jtab) (p : proc) (j : job) : res str * proc :=
-  (* 1. the environment *)
-  let '(c, ti) :=
-    if j_implicit j then
-      let '(r, ti) := memo_call cfg_py_eq (fun c => Ok c) impl_cap (p_impl p) (j_delims j, j_flags j) in
-      (ok_or r (j_delims j, j_flags j), ti)
-    else ((j_delims j, j_flags j), p_impl p) in
-  (* 2. its tokenizer and parser *)
-  let '(rl, tl) := memo_call pvs_eq (fun d => Ok d) lex_cap (p_lex p) (fst c) in
-  let d := ok_or rl (fst c) in
-  let '(rp, tp) := memo_call N.eqb (fun e => Ok e) lex_cap (p_parser p) (j_env j) in
-  let e := ok_or rp (j_env j) in
-  (* 3. the date filter: the parse step *)
-  let '(dt, tq) :=
-    match j_date j with
-    | Some (dat, fmt) =>
-        match text_of dat with
-        | Some s =>
-            if is_special s then (Some (dat, fmt), p_parse p)
-            else let '(r, tq) := memo_call pkey_eqb parse_abs date_cap (p_parse p) (s, j_day j) in
-                 (Some (with_text dat (ok_or r s), fmt), tq)
-        | None => (Some (dat, fmt), p_parse p)
-        end
-    | None => (None, p_parse p)
-    end in
-  (jlook ft {| j_implicit := j_implicit j; j_env := e; j_delims := d; j_flags := snd c;
-               j_date := dt; j_day := j_day j; j_rest := j_rest j |},
-   {| p_impl := ti; p_lex := tl; p_parser := tp; p_parse := tq |}).
-
-Fixpoint proc_state (ft : jtab) (p : proc) (hist : list job) : proc :=
-  match hist with
-  | [] => p
-  | j :: r => proc_state ft (snd (step ft p j)) r
-  end.
-
-Fixpoint proc_run (ft : jtab) (p : proc) (js : list job) : list (res str) :=
-  match js with
-  | [] => []
-  | j :: r => let '(o, p') := step ft p j in o :: proc_run ft p' r
-  end.
-
-(* correspondence entry points *)
-Record pcase := { pc_fresh : jtab; pc_jobs : list job }.
-Definition run_proc (c : pcase) : list (res str) := proc_run (pc_fresh c) proc0 (pc_jobs c).
-
-Record dcase := { dc_fresh : dtab; dc_calls : list dkey }.
-Definition run_date_old (c : dcase) : list (res str) := date_old_run (dc_fresh c) (dc_calls c).
-
-Definition res_str_eqb (a b : res str) : bool :=
-  match a, b with
-  | Ok x, Ok y => str_eqb x y
-  | Err e, Err g => exn_eqb e g
-  | _, _ => false
-  end.
-Definition obs_eqb (a b : list (res str)) : bool := list_eqb res_str_eqb a b.
-
-(* ------------------------------------------------------------------------------------------ *)
-(* 5. Effect table of the array filters.  Gallina has no aliasing, so list objects live in a   *)
-(*    heap (address = position); a filter receives values that may be references and returns a  *)
-(*    value and a heap.  Which filters hand back an alias and which allocate is read off the    *)
-(*    code; the theorem is that none of them writes to an existing object.                      *)
-(* ------------------------------------------------------------------------------------------ *)
-Inductive cell := CNum (z : Z) | CNil | CRef (a : nat).
-Definition heap := list (list cell).
-
-Inductive value := VNum (z : Z) | VNil | VUndef | VList (a : nat).
-
-Inductive fop :=
-| FDefault | FFirst | FLast | FConcat | FReverse | FSort | FCompact | FUniq | FMap | FWhere
-| FSize | FJoin.
-
-Definition cells (h : heap) (a : nat) : list cell := nth a h [].
-Definition alloc (h : heap) (l : list cell) : heap * value := (h ++ [l], VList (length h)).
-Definition cell_value (c : cell) : value :=
-  match c with CNum z => VNum z | CNil => VNil | CRef a => VList a end.
-
-Definition cell_eqb (a b : cell) : bool :=
-  match a, b with
-  | CNum x, CNum y => Z.eqb x y
-  | CNil, CNil => true
-  | CRef x, CRef y => Nat.eqb x y
-  | _, _ => false
-  end.
-
-(* flatten (liquid/filter.py): nested lists are spliced in, to five levels; always a new list *)
-Fixpoint flatten_cells (level : nat) (h : heap) (l : list cell) : list cell :=
-  match level with
-  | O => l
-  | S lv => flat_map (fun c => match c with CRef a => flatten_cells lv h (cells h a) | _ => [c] end) l
-  end.
-
-Fixpoint insert_cell (c : cell) (l : list cell) : list cell :=
-  match l with
-  | [] => [c]
-  | d :: r =>
-      match c, d with
-      | CNum x, CNum y => if Z.leb x y then c :: l else d :: insert_cell c r
-      | _, _ => c :: l
-      end
-  end.
-Definition sort_cells (l : list cell) : list cell := fold_right insert_cell [] l.
-
-Fixpoint uniq_cells (seen l : list cell) : list cell :=
+Fixpoint set_nth {A} (n : nat) (f : A -> A) (l : list A) : list A :=
   match l with
   | [] => []
-  | c :: r => if existsb (cell_eqb c) seen then uniq_cells seen r else c :: uniq_cells (c :: seen) r
+  | x :: r => match n with O => f x :: r | S n' => x :: set_nth n' f r end
   end.
 
-Definition is_cnil (c : cell) : bool := match c with CNil => true | _ => false end.
-
-(* the left value as the sequence_filter decorator hands it to the filter body: a flattened copy *)
-Definition seq_input (h : heap) (v : value) : list cell :=
-  match v with
-  | VList a => flatten_cells 5 h (cells h a)
-  | VNum z => [CNum z]
-  | VNil => [CNil]
-  | VUndef => []
+(* Environment._parse: parser = get_parser(self); tokens = self.tokenizer()(source); parser.parse(tokens) *)
+Definition do_parse (s : pstate) (e : nat) (src : str) : presult * pstate :=
+  match nth_error (ps_envs s) e with
+  | None => ((Err EOtherForeign, None), s)
+  | Some ed =>
+      let '(p, parsers') := cached Nat.eqb 128 (fun i => i) (ps_parsers s) e in
+      let '(lx, lexers') := cached delims_eqb 128 compile_lexer (ps_lexers s) (eff_delims (ed_cfg ed)) in
+      ((lx src, nth_error (ps_envs s) p),
+       {| ps_envs := ps_envs s; ps_lexers := lexers'; ps_parsers := parsers'; ps_implicit := ps_implicit s |})
   end.
 
-Definition apply_filter (h : heap) (op : fop) (left arg : value) : heap * value :=
-  match op with
-  | FDefault =>                                  (* returns the left OBJECT, or the argument OBJECT *)
-      match left with
-      | VNil | VUndef => (h, arg)
-      | VList a => match cells h a with [] => (h, arg) | _ => (h, left) end
-      | _ => (h, left)
+Definition step_op (s : pstate) (o : op) : option presult * pstate :=
+  match o with
+  | NewEnv c tags filters =>
+      (None, {| ps_envs := ps_envs s ++ [{| ed_cfg := c; ed_tags := tags; ed_filters := filters |}];
+                ps_lexers := ps_lexers s; ps_parsers := ps_parsers s; ps_implicit := ps_implicit s |})
+  | AddTag e t =>
+      (None, {| ps_envs := set_nth e (fun ed => {| ed_cfg := ed_cfg ed; ed_tags := t :: ed_tags ed; ed_filters := ed_filters ed |}) (ps_envs s);
+                ps_lexers := ps_lexers s; ps_parsers := ps_parsers s; ps_implicit := ps_implicit s |})
+  | AddFilter e f =>
+      (None, {| ps_envs := set_nth e (fun ed => {| ed_cfg := ed_cfg ed; ed_tags := ed_tags ed; ed_filters := f :: ed_filters ed |}) (ps_envs s);
+                ps_lexers := ps_lexers s; ps_parsers := ps_parsers s; ps_implicit := ps_implicit s |})
+  | Parse e src => let '(r, s') := do_parse s e src in (Some r, s')
+  | Implicit c tags filters src =>
+      (* get_implicit_environment(kwargs): a hit reuses the cached environment, a miss creates one *)
+      match clookup cfg_eqb c (ps_implicit s) with
+      | Some e =>
+          let s1 := {| ps_envs := ps_envs s; ps_lexers := ps_lexers s; ps_parsers := ps_parsers s;
+                       ps_implicit := (c, e) :: cremove cfg_eqb c (ps_implicit s) |} in
+          let '(r, s') := do_parse s1 e src in (Some r, s')
+      | None =>
+          let e := length (ps_envs s) in
+          let s1 := {| ps_envs := ps_envs s ++ [{| ed_cfg := c; ed_tags := tags; ed_filters := filters |}];
+                       ps_lexers := ps_lexers s; ps_parsers := ps_parsers s;
+                       ps_implicit := firstn 10 ((c, e) :: ps_implicit s) |} in
+          let '(r, s') := do_parse s1 e src in (Some r, s')
       end
-  | FFirst => match left with                      (* an element of the input, not a copy *)
-              | VList a => match cells h a with c :: _ => (h, cell_value c) | [] => (h, VNil) end
-              | _ => (h, VNil)
-              end
-  | FLast => match left with
-             | VList a => match rev (cells h a) with c :: _ => (h, cell_value c) | [] => (h, VNil) end
-             | _ => (h, VNil)
-             end
-  | FConcat =>
-      match arg with
-      | VList b =>
-          match left with
-          | VUndef => (h, arg)                     (* the argument OBJECT itself *)
-          | _ => alloc h (seq_input h left ++ cells h b)
-          end
-      | _ => (h, VUndef)                           (* FilterArgumentError: no value *)
-      end
-  | FReverse => alloc h (rev (seq_input h left))
-  | FSort => alloc h (sort_cells (seq_input h left))
-  | FCompact => alloc h (filter (fun c => negb (is_cnil c)) (seq_input h left))
-  | FUniq => alloc h (uniq_cells [] (seq_input h left))
-  | FMap => alloc h (map (fun _ => CNil) (seq_input h left))       (* new list of selected properties *)
-  | FWhere => alloc h (filter (fun _ => false) (seq_input h left))  (* new list of selected items *)
-  | FSize => (h, VNum (Z.of_nat (match left with VList a => length (cells h a) | _ => 0 end)))
-  | FJoin => (h, VNum 0)                           (* a new string *)
   end.
 
-(* a chain of filters, then an assign: locals map names to values (references are shared) *)
-Definition chain (h : heap) (left : value) (fs : list (fop * value)) : heap * value :=
-  fold_left (fun hv fa => apply_filter (fst hv) (fst fa) (snd hv) (snd fa)) fs (h, left).
-
-(* what the implementation-side identity probe observes *)
-Inductive alias_class := AInput | AArg | AElement | AFresh | AScalar.
-Definition alias_class_eqb (a b : alias_class) : bool :=
-  match a, b with
-  | AInput, AInput | AArg, AArg | AElement, AElement | AFresh, AFresh | AScalar, AScalar => true
-  | _, _ => false
+Fixpoint run_ops (s : pstate) (ops : list op) : list (option presult) * pstate :=
+  match ops with
+  | [] => ([], s)
+  | o :: r => let '(x, s1) := step_op s o in let '(xs, s2) := run_ops s1 r in (x :: xs, s2)
   end.
 
-Definition classify (h : heap) (left arg : value) (r : heap * value) : alias_class :=
-  match snd r with
-  | VList a =>
-      if Nat.leb (length h) a then AFresh
-      else match left with
-           | VList l => if Nat.eqb a l then AInput
-                        else match arg with VList g => if Nat.eqb a g then AArg else AElement | _ => AElement end
-           | _ => match arg with VList g => if Nat.eqb a g then AArg else AElement | _ => AElement end
-           end
-  | _ => AScalar
-  end.
-
-Record ecase := { ec_heap : heap; ec_op : fop; ec_left : value; ec_arg : value }.
-Definition run_effect (c : ecase) : alias_class :=
-  classify (ec_heap c) (ec_left c) (ec_arg c) (apply_filter (ec_heap c) (ec_op c) (ec_left c) (ec_arg c)).
+(* the same history with every memo table emptied before every operation (what a fresh process would compute) *)
+Definition forget (s : pstate) : pstate :=
+  {| ps_envs := ps_envs s; ps_lexers := []; ps_parsers := []; ps_implicit := ps_implicit s |}.
